@@ -5,6 +5,7 @@ package props_race
 import (
 	"bytes"
 	"context"
+	"net"
 	"encoding/json"
 	"errors"
 	"fmt"
@@ -241,6 +242,9 @@ func c19Check(c C19Case) *pbt.Violation {
 				if err != nil {
 					return
 				}
+				if tc, ok := conn.Socket.(*net.TCPConn); ok {
+					tc.SetLinger(0) // no TIME_WAIT on the server side
+				}
 				go srv.AcceptConn(&conn)
 			}
 		}()
@@ -458,7 +462,7 @@ func genC19(t *rapid.T) C19Case {
 	c.Name = rapid.OneOf(rapid.StringMatching(`[A-Za-z0-9_]{1,16}`), rapid.SampledFrom([]string{"Steve", "a", "é_ü", "名前", "Notch_16_chars__"})).Draw(t, "name")
 	c.Threshold = rapid.SampledFrom([]int{-1, 0, 1, 64, 256, 1 << 20}).Draw(t, "thr")
 	c.Refuse = rapid.IntRange(0, 9).Draw(t, "refuse") == 4
-	c.TCP = rapid.IntRange(0, pbt.Pick(9, 3)).Draw(t, "tcp") == 1
+	c.TCP = rapid.IntRange(0, 9).Draw(t, "tcp") == 4
 	c.Ping = rapid.IntRange(0, 7).Draw(t, "ping") == 3
 	c.Chunk = rapid.SampledFrom([]int{0, 0, 1, 7, 100}).Draw(t, "chunk")
 	ids := []int32{1, 2, 3, int32(packetid.ClientboundPacketIDGuard) - 1, 0x2b, 0x6c}
@@ -480,6 +484,9 @@ func genC19(t *rapid.T) C19Case {
 		c.ToServer = append(c.ToServer, C19Pkt{ID: int32(rapid.IntRange(0, int(packetid.ServerboundPacketIDGuard)-1).Draw(t, "sid")), Len: genPktLen(t, c.Threshold), Seed: rapid.Byte().Draw(t, "seed")})
 	}
 	nh := rapid.IntRange(0, 8).Draw(t, "nhandlers")
+	if rapid.IntRange(0, 5).Draw(t, "manyhandlers") == 3 {
+		nh = rapid.IntRange(13, 40).Draw(t, "nhandlersmany") // sorting algorithms change behaviour with size
+	}
 	group := 0
 	for i := 0; i < nh; i++ {
 		if rapid.Bool().Draw(t, "newgroup") {
